@@ -791,6 +791,6 @@ func sortedKeys(m map[string]interface{}) []string {
 }
 
 func init() {
-	register("varexp", &family{replay: varReplay})
+	register("varexp", &family{replay: varReplay, drive: varexpDrive})
 	registerChild("varexp", varChild)
 }
